@@ -7,7 +7,7 @@ From Krrood Require Import Base.Sx Orm.ObjGraph Orm.Iso Orm.ObjGraphWalk Orm.Obj
 Import ListNotations.
 Local Open Scope nat_scope.
 
-Definition Pid : params := mkParams (fun c => c) (fun _ => None) false.
+Definition Pid : params := mkParams (fun c => c) (fun _ => None) false false.
 
 Definition canon (h : heap) (n : nat) (r : addr) : option (addr * list (option obj)) :=
   match walk Pid h (S n) r st0 with
